@@ -994,6 +994,7 @@ func (ex *Exec) doSelect(st *State, fr *Frame, s *ssa.Select) {
 			}
 			env := ex.loopEnv(st, fr)
 			env.vars["selidx"] = TV{Scalar{idx}, types.Typ[types.Int]}
+			env.vars["selcases"] = TV{Scalar{IntLit(int64(len(s.States)))}, types.Typ[types.Int]}
 			k := 2
 			for i, state := range s.States {
 				if state.Dir == types.RecvOnly {
@@ -1023,7 +1024,8 @@ func (ex *Exec) doSelect(st *State, fr *Frame, s *ssa.Select) {
 				continue
 			}
 			for i, n := range gs.Names {
-				env.setGhostGlobal(n, vals[i])
+				_ = n
+			env.assignGhost(gs, i, vals[i])
 			}
 		}
 	}
